@@ -266,4 +266,55 @@ def ParsePacket (pm : PacketMapper) (m : FlowMsg) (data : Bytes) : Res FlowMsg :
   | none => .error .panic
   | some c => parsePacket c m data
 
+/-! ## additions for the wire decoders (LegacyT.lean, …): the *bytes.Buffer is the list of the bytes that remain -/
+
+/-- `payload.Next(n)`: up to n bytes, never fails; (what was taken, what remains) -/
+def next (b : Bytes) (n : Nat) : Bytes × Bytes := (b.take n, b.drop n)
+
+/-- `utils.BinaryRead(payload, binary.BigEndian, &x)` for `x` of type uint8 / uint16 / uint32 / uint64 (decoders/utils/utils.go):
+    `n := intDataSize(data)` is 1 / 2 / 4 / 8; `bs := payload.Next(n); if len(bs) < n { return io.ErrUnexpectedEOF }`;
+    `*data = bs[0]` resp. `order.UintNN(bs)`. The value and the buffer after the read. -/
+def readU8 (b : Bytes) : Res (UInt8 × Bytes) :=
+  let bs := (next b 1).1
+  if bs.length < 1 then .error .eof else .ok (UInt8.ofNat (beNat bs), (next b 1).2)
+def readU16 (b : Bytes) : Res (UInt16 × Bytes) :=
+  let bs := (next b 2).1
+  if bs.length < 2 then .error .eof else .ok (UInt16.ofNat (beNat bs), (next b 2).2)
+def readU32 (b : Bytes) : Res (UInt32 × Bytes) :=
+  let bs := (next b 4).1
+  if bs.length < 4 then .error .eof else .ok (UInt32.ofNat (beNat bs), (next b 4).2)
+def readU64 (b : Bytes) : Res (UInt64 × Bytes) :=
+  let bs := (next b 8).1
+  if bs.length < 8 then .error .eof else .ok (UInt64.ofNat (beNat bs), (next b 8).2)
+
+/-- `return …, err` of a state-passing function: the error if there is one -/
+def retSt {α : Type} (err : Error) (a : α) : Res α :=
+  match err with
+  | none => .ok a
+  | some e => .error e
+
+/-- an error wrapped in a way `errors.Is` does not see through (fmt.Errorf without %w): any error becomes `bad`;
+    a panic or a loop out of fuel is not an error value and stays what it is -/
+def errBad {α : Type} (r : Res α) : Res α :=
+  match r with
+  | .error .eof => .error .bad
+  | .error .tnf => .error .bad
+  | other => other
+
+/-- `make([]T, n)`, `s[i] = v`, `s[:n]` on a slice of structs (checked against len, not cap) -/
+def makeL {α : Type} (n : Nat) (zero : α) : Res (List α) := .ok (List.replicate n zero)
+def setIdxL {α : Type} (l : List α) (i : Nat) (v : α) : Res (List α) :=
+  if i < l.length then .ok (l.set i v) else .error .panic
+def sliceToL {α : Type} (l : List α) (n : Nat) : Res (List α) :=
+  if n ≤ l.length then .ok (l.take n) else .error .panic
+
+/-- `utils.BinaryRead(payload, order, data)` for `data []byte` (also IPAddress / MacAddress): `n := len(data)`; an empty
+    destination falls out of the fast path and is an "invalid type" error; otherwise `bs := payload.Next(n)`, EOF when short,
+    `copy(data, bs)`. The new content of `data` and the buffer after the read. -/
+def readBytes (b : Bytes) (n : Nat) : Res (Bytes × Bytes) :=
+  if n = 0 then .error .bad
+  else
+    let bs := (next b n).1
+    if bs.length < n then .error .eof else .ok (bs, (next b n).2)
+
 end Goflow.Go
